@@ -108,6 +108,8 @@ def configs(tier):
             for disp in ((False, True) if shape == "new" else (False,)):
                 out.append(dict(mode=mode, closure=True, shape=shape, nak=nak, size=4, seg=2, disposition=disp, check_limit=2,
                                 ack_limit=2, nak_limit=2, max_tx=1))
+    # the sender's PDUs carry the large-file flag (64 bit offsets in File Data, 64 bit sizes in Metadata / EOF)
+    out.append(dict(mode="ack", closure=True, shape="new", nak="imm", size=4, seg=2, check_limit=2, ack_limit=2, nak_limit=2, max_tx=1, large_pdus=True))
     return out
 
 
